@@ -98,17 +98,25 @@ theorem C05_caught_up_node_has_it {L : List LogEntry} (n : NodeLife L) (e : LogE
   unfold replayLive
   exact List.mem_map.2 ⟨e, List.mem_filter.2 ⟨he, hc⟩, rfl⟩
 
-/-- (6) the output a node serves: wherever a node has not compacted yet (index above its boundary `b`),
-it holds the output batch of exactly the committed commands; so two nodes serve the same batches
-wherever neither has compacted -/
+/-- (6) the output a node serves: a node's log copy is the committed commands above its compaction boundary
+`b` (that is what ties `b` to the node — a first version of this theorem left the boundaries unconstrained,
+which made it true for any pair of nodes; found by the non-vacuity audit), and for every such command the node
+holds the output batch; so two nodes serve the same batches wherever neither has compacted -/
 theorem C05_nodes_serve_the_same_output {L : List LogEntry} (n₁ n₂ : NodeLife L) :
-    ∃ b₁ b₂, ∀ e ∈ L.take (min n₁.k n₂.k), e.isCmd = true → b₁ < e.idx → b₂ < e.idx →
-      (e.idx ∈ n₁.node.out ∧ e.idx ∈ n₂.node.out) := by
+    ∃ b₁ b₂,
+      n₁.node.irc = (L.take n₁.k).filter (fun e => e.isCmd && decide (b₁ < e.idx)) ∧
+      n₂.node.irc = (L.take n₂.k).filter (fun e => e.isCmd && decide (b₂ < e.idx)) ∧
+      ∀ e ∈ L.take (min n₁.k n₂.k), e.isCmd = true → b₁ < e.idx → b₂ < e.idx →
+        (e.idx ∈ n₁.node.out ∧ e.idx ∈ n₂.node.out) := by
   obtain ⟨b₁, h₁, _⟩ := C02_unfolded_exact n₁.ops n₁.wf
   obtain ⟨b₂, h₂, _⟩ := C02_unfolded_exact n₂.ops n₂.wf
   have o₁ := (C02_unfolded_kept n₁.ops n₁.wf).1
   have o₂ := (C02_unfolded_kept n₂.ops n₂.wf).1
-  refine ⟨b₁, b₂, fun e he hc hb₁ hb₂ => ⟨?_, ?_⟩⟩
+  refine ⟨b₁, b₂, ?_, ?_, fun e he hc hb₁ hb₂ => ⟨?_, ?_⟩⟩
+  · show (({} : Node).run n₁.ops).irc = _
+    rw [h₁, n₁.pre]
+  · show (({} : Node).run n₂.ops).irc = _
+    rw [h₂, n₂.pre]
   · refine (o₁ e.idx).2 (List.mem_map.2 ⟨e, ?_, rfl⟩)
     show e ∈ (({} : Node).run n₁.ops).irc
     rw [h₁, n₁.pre]
@@ -144,7 +152,7 @@ FSM's response was checked — `applyMessageWait` waits on `f.Error()` itself (n
 that could let it return while the entry is still in flight: a client that is told "failed" retries, and a
 retry of an entry that commits later is a duplicate), and the id is taken only afterwards -/
 theorem C05_ack_after_commit :
-    Robust.Gen.Exprs.fact "apply.wait" = "err := f.Error() ; err != nil ; { return err }" ∧
+    Robust.Gen.Exprs.fact "apply.wait" = "nil != recv.raftNode.Apply(local:[]byte, param2).Error() => return recv.raftNode.Apply(local:[]byte, param2).Error()" ∧
     Robust.Gen.Exprs.fact "apply.async" = "0" ∧
     Robust.Gen.Exprs.fact "apply.idAfterErrorCheck" = "true" := by decide
 
@@ -166,5 +174,108 @@ example : nB.node.live <+: nA.node.live := by
     rw [h1, h2]; decide
   · exact h
 example : nA.node.live = [1, 2, 3] ∧ nB.node.live = [1, 2] := by decide
+
+/-! ## non-vacuity (audit)
+
+A five-entry network log with a raft-internal entry (`l3`, not a command) and a network configuration that
+changes the session expiration (`l4`).  Node A: snapshot that folds only the old part, persist, kill and
+restart, a second snapshot whose write fails.  Node B lags (three entries), was killed once, snapshotted and
+had raft re-install its newest snapshot. -/
+namespace Ex
+def l1 : LogEntry := ⟨1, 100, true, none⟩
+def l2 : LogEntry := ⟨2, 200, true, none⟩
+def l3 : LogEntry := ⟨3, 250, false, none⟩
+def l4 : LogEntry := ⟨4, 300, true, some 700000000000⟩
+def l5 : LogEntry := ⟨5, 400, true, none⟩
+def L : List LogEntry := [l1, l2, l3, l4, l5]
+def opsA : List Op := [.commit l1, .commit l2, .snapshot 610000000150, .persist, .commit l3, .commit l4, .restart,
+  .commit l5, .snapshot 610000000150, .persistFail]
+def opsB : List Op := [.commit l1, .restart, .commit l2, .snapshot 610000000050, .persist, .commit l3, .restoreLatest]
+theorem wfA : WfOps opsA := by unfold WfOps; decide
+theorem wfB : WfOps opsB := by unfold WfOps; decide
+/-- the two nodes as lives over `L` (the structure fields `wf` and `pre` are the hypotheses) -/
+def nA : NodeLife L := ⟨opsA, wfA, 5, by decide⟩
+def nB : NodeLife L := ⟨opsB, wfB, 3, by decide⟩
+/-- what the nodes hold: A has folded entry 1 into its snapshot state, B nothing yet -/
+example : nA.node.live = [1, 2, 4, 5] ∧ nA.node.out = [2, 4, 5] ∧ nA.node.irc.map (·.idx) = [2, 4, 5] ∧
+    nA.node.exp = 700000000000 ∧ nA.node.persisted.map (fun s => (s.index, s.stateIdx, s.state)) = [(2, 1, [1])] := by decide
+example : nB.node.live = [1, 2] ∧ nB.node.out = [1, 2] ∧ nB.node.exp = 600000000000 ∧
+    nB.node.persisted.map (fun s => (s.index, s.stateIdx, s.state)) = [(2, 0, [])] := by decide
+
+/-- `C05_node_is_replay` for both nodes, with the concrete right-hand sides -/
+example : nA.node.live = replayLive (L.take 5) ∧ nA.node.exp = replayExp (L.take 5) := C05_node_is_replay nA
+example : nB.node.live = replayLive (L.take 3) ∧ nB.node.exp = replayExp (L.take 3) := C05_node_is_replay nB
+example : replayLive (L.take 5) = [1, 2, 4, 5] ∧ replayExp (L.take 5) = 700000000000 ∧ replayLive (L.take 3) = [1, 2] := by decide
+
+/-- `C05_acked_never_lost`: entry 2 was applied during the first four steps of A's life; it is still there after
+the rest of it (raft-internal entry, config, kill, restart, second snapshot) -/
+example : l2.idx ∈ (({} : Node).run (opsA.take 4 ++ opsA.drop 4)).live :=
+  C05_acked_never_lost (opsA.take 4) (opsA.drop 4) wfA l2 (by decide) rfl
+/-- `C05_exactly_once_in_state` -/
+example : (({} : Node).run opsA).live.Nodup := C05_exactly_once_in_state opsA wfA
+/-- `C05_same_order_everywhere` -/
+example : nB.node.live <+: nA.node.live :=
+  (C05_same_order_everywhere nA nB).resolve_left (by decide)
+/-- `C05_caught_up_node_has_it`: B has caught up to entry 2 (but not to 4) -/
+example : l2.idx ∈ nB.node.live := C05_caught_up_node_has_it nB l2 rfl (by decide)
+example : l4 ∉ L.take nB.k ∧ l4.idx ∉ nB.node.live := by decide
+
+/-- `C05_nodes_serve_the_same_output` on the example nodes: the boundaries are determined by the nodes' log
+copies (A has compacted up to 1, B nothing), and above both every command's batch is held by both -/
+example : ∃ b₁ b₂,
+    nA.node.irc = (L.take nA.k).filter (fun e => e.isCmd && decide (b₁ < e.idx)) ∧
+    nB.node.irc = (L.take nB.k).filter (fun e => e.isCmd && decide (b₂ < e.idx)) ∧
+    ∀ e ∈ L.take (min nA.k nB.k), e.isCmd = true → b₁ < e.idx → b₂ < e.idx →
+      (e.idx ∈ nA.node.out ∧ e.idx ∈ nB.node.out) := C05_nodes_serve_the_same_output nA nB
+/-- … concretely, with the nodes' real compaction boundaries (A: 1, B: 0): -/
+example : nA.node.irc = (L.take nA.k).filter (fun e => e.isCmd && decide (1 < e.idx)) ∧
+    nB.node.irc = (L.take nB.k).filter (fun e => e.isCmd && decide (0 < e.idx)) ∧
+    ∀ e ∈ L.take (min nA.k nB.k), e.isCmd = true → 1 < e.idx → 0 < e.idx →
+      (e.idx ∈ nA.node.out ∧ e.idx ∈ nB.node.out) := by decide
+/-- why the tie matters: without it a statement of this shape holds for *any* predicate `P` in place of "both
+nodes hold the batch" (pick a boundary above every index of `L`) -/
+theorem le_foldr_max (l : List Nat) : ∀ x ∈ l, x ≤ l.foldr max 0 := by
+  induction l with
+  | nil => intro x hx; cases hx
+  | cons a l ih =>
+    intro x hx
+    simp only [List.foldr_cons]
+    rcases List.mem_cons.1 hx with rfl | h
+    · exact Nat.le_max_left _ _
+    · exact Nat.le_trans (ih x h) (Nat.le_max_right _ _)
+example (L : List LogEntry) (k : Nat) (P : LogEntry → Prop) :
+    ∃ b₁ b₂ : Nat, ∀ e ∈ L.take k, e.isCmd = true → b₁ < e.idx → b₂ < e.idx → P e := by
+  refine ⟨(L.map (·.idx)).foldr max 0, 0, fun e he _ hb _ => ?_⟩
+  have := le_foldr_max (L.map (·.idx)) e.idx (List.mem_map.2 ⟨e, (List.take_subset k L) he, rfl⟩)
+  omega
+
+theorem some_getD_of_isSome {α : Type} {o : Option α} {d : α} (h : o.isSome = true) : o = some (o.getD d) := by
+  cases o with
+  | none => cases h
+  | some a => rfl
+/-- `C05_recent_output_survives_snapshots`: a third snapshot of node A at `now = 710 s + 350 ns` (expiration is
+700 s by then, horizon 350 ns) succeeds (`hs`); entry 5 (ts 400) is in the log copy (`he`) and newer than the
+horizon (`hnew`): it and its output survive, while entries 2 and 4 are folded -/
+def nA' : Node := ((({} : Node).run opsA).snapshot 710000000350).getD {}
+example : l5 ∈ nA'.irc ∧ (l5.idx ∈ (({} : Node).run opsA).out → l5.idx ∈ nA'.out) :=
+  C05_recent_output_survives_snapshots opsA wfA nA' 710000000350 (some_getD_of_isSome (by decide)) l5 (by decide) (by decide)
+example : nA'.irc.map (·.idx) = [5] ∧ nA'.out = [5] ∧ (({} : Node).run opsA).out = [2, 4, 5] ∧ nA'.live = [1, 2, 4, 5] := by decide
+
+/-- `C05_client_exactly_once`: four batches (ids 2, 5, 6, 9), two sessions; the client of session 1 starts at
+`(1, 0)` and reads over four connections — cut inside batch 2 on a lagging node, cut after batch 5, cut at once,
+then uncut -/
+def mm (i r : Nat) (rc : List Nat) : Stream.Resume.M := ⟨i, r, rc⟩
+def net4 : Stream.Resume.Net :=
+  [[mm 2 1 [1], mm 2 2 [2], mm 2 3 [1]], [mm 5 1 [2]], [mm 6 1 [1], mm 6 2 [1, 2]], [mm 9 1 [2], mm 9 2 [1]]]
+theorem net4_wf : Stream.Resume.WfNet net4 := by
+  unfold Stream.Resume.WfNet Stream.Resume.WfBatch; decide
+def sched4 : List (Bool × Nat) := [(false, 2), (true, 2), (true, 0), (true, 9)]
+example : ∃ n, Robust.Props.C04.client net4 1 (1, 0) sched4 [] =
+    ((Robust.Props.C04.owed net4 1 0).filter (Stream.Resume.interesting 1)).take n :=
+  C05_client_exactly_once net4 net4_wf 1 (1, 0) (by decide) sched4
+example : Robust.Props.C04.client net4 1 (1, 0) sched4 [] = [mm 2 1 [1], mm 2 3 [1], mm 6 1 [1], mm 6 2 [1, 2], mm 9 2 [1]] ∧
+    (Robust.Props.C04.owed net4 1 0).filter (Stream.Resume.interesting 1) =
+      [mm 2 1 [1], mm 2 3 [1], mm 6 1 [1], mm 6 2 [1, 2], mm 9 2 [1]] := by decide
+end Ex
 
 end Robust.Props.C05
